@@ -22,6 +22,7 @@ CONSTANTS
     Offsets,      \* a fit may start at any of these offsets into the data set
     MaxChunk, MaxHist, MaxDepth,
     MinFit,       \* fewest rows a fit accepts (k of KNearest, n_clusters of Clusters)
+    MinArms,      \* remove_arm is explored while more than this many arms remain
     Ops, RejectKinds, QueryRows, Quantiles,
     Dev
 
@@ -61,14 +62,14 @@ AddArm(a) ==
     /\ last' = [op |-> "add_arm", arm |-> a]
 
 RemoveArm(a) ==
-    /\ "remove_arm" \in Ops /\ a \in RangeS(arms) /\ Len(arms) > 2
+    /\ "remove_arm" \in Ops /\ a \in RangeS(arms) /\ Len(arms) > MinArms
     /\ arms' = SelectSeq(arms, LAMBDA x : x # a) /\ UNCHANGED <<fitted, rows, warm>>
     /\ last' = [op |-> "remove_arm", arm |-> a]
 
 (* which arms become warm depends on the policy's features: the binding reports it, the abstract state only
    records that a warm start happened with quantile q (two warm starts with the same q are one state) *)
 WarmStart(q) ==
-    /\ "warm_start" \in Ops /\ fitted /\ q \in Quantiles
+    /\ "warm_start" \in Ops /\ q \in Quantiles
     /\ warm' = warm \cup {q}
     /\ UNCHANGED <<arms, fitted, rows>>
     /\ last' = [op |-> "warm_start", q |-> q]
